@@ -471,7 +471,7 @@ def jobs(tier):
 def all_jobs(tier):
     from . import extra_misc, mnode
     from . import c03red
-    return jobs(tier) + extra_misc.jobs_for('C03', tier) + mnode.jobs_for('C03', tier) + c03red.jobs(tier)
+    return jobs(tier) + extra_misc.jobs_for('C03', tier) + mnode.jobs_for('C03', tier) + c03red.jobs(tier) + c03red.jobs_numpy_reduce(tier)
 
 
 def main(report, tier):
